@@ -844,8 +844,7 @@ impl<'ctx> ByteCompiler<'ctx> {
                     self.emit_binding_access(BindingAccessOpcode::DefInitVar, &index, value);
                 }
                 Err(BindingLocatorError::MutateImmutable) => {
-                    let index = self.get_or_insert_string(name);
-                    self.bytecode.emit_throw_mutate_immutable(index.into());
+                    self.emit_throw_mutate_immutable_binding(name);
                 }
                 Err(BindingLocatorError::Silent) => {}
             },
@@ -860,12 +859,25 @@ impl<'ctx> ByteCompiler<'ctx> {
                     self.emit_binding_access(BindingAccessOpcode::SetName, &index, value);
                 }
                 Err(BindingLocatorError::MutateImmutable) => {
-                    let index = self.get_or_insert_string(name);
-                    self.bytecode.emit_throw_mutate_immutable(index.into());
+                    self.emit_throw_mutate_immutable_binding(name);
                 }
                 Err(BindingLocatorError::Silent) => {}
             },
         }
+    }
+
+    /// Emits the throw for an assignment to an immutable binding: a `ReferenceError` while the
+    /// binding is still in its temporal dead zone (the initialization check of
+    /// `SetMutableBinding` comes first), a `TypeError` otherwise.
+    pub(crate) fn emit_throw_mutate_immutable_binding(&mut self, name: JsString) {
+        let binding = self.lexical_scope.get_identifier_reference(name.clone());
+        let index = self.get_binding(&binding);
+        let scratch = self.register_allocator.alloc();
+        self.emit_binding_access(BindingAccessOpcode::GetName, &index, &scratch);
+        self.register_allocator.dealloc(scratch);
+
+        let index = self.get_or_insert_string(name);
+        self.bytecode.emit_throw_mutate_immutable(index.into());
     }
 
     fn next_opcode_location(&mut self) -> Address {
@@ -1608,8 +1620,7 @@ impl<'ctx> ByteCompiler<'ctx> {
                             self.emit_binding_access(BindingAccessOpcode::SetName, &index, value);
                         }
                         Err(BindingLocatorError::MutateImmutable) => {
-                            let index = self.get_or_insert_string(name);
-                            self.bytecode.emit_throw_mutate_immutable(index.into());
+                            self.emit_throw_mutate_immutable_binding(name);
                         }
                         Err(BindingLocatorError::Silent) => {}
                     }
@@ -2457,8 +2468,7 @@ impl<'ctx> ByteCompiler<'ctx> {
                             self.emit_binding_access(BindingAccessOpcode::SetName, &index, &value);
                         }
                         Err(BindingLocatorError::MutateImmutable) => {
-                            let index = self.get_or_insert_string(name);
-                            self.bytecode.emit_throw_mutate_immutable(index.into());
+                            self.emit_throw_mutate_immutable_binding(name);
                         }
                         Err(BindingLocatorError::Silent) => {}
                     }
